@@ -1707,6 +1707,25 @@ fn c17(r: &Runner) {
                 pg.push((t, txt.as_bytes().to_vec()));
             }
         }
+        // LONG rejected texts with a multi-byte character at every byte offset around 64, 128, 256 (an error message that
+        // quotes a prefix of the input, a chunked scanner): JSON strings and bare texts, into every decoder
+        {
+            let mut long: Vec<Vec<u8>> = vec![];
+            for base in [64usize, 128, 256] {
+                for k in base - 6..=base + 4 {
+                    for c in ["\u{e9}", "\u{20ac}", "\u{1f600}"] {
+                        for (pre, fill) in [("", "z"), ("0x", "f"), ("", "9")] {
+                            let body = format!("{pre}{}{c}{c}zz", fill.repeat(k - pre.len()));
+                            long.push(format!("\"{body}\"").into_bytes());
+                            long.push(body.into_bytes());
+                        }
+                    }
+                }
+            }
+            r.universe(&format!("long texts with a multi-byte character at every offset around 64 / 128 / 256 bytes ({} inputs) -> every decoder", long.len()), bits, long.len(), |i, l| {
+                decode_all(l, bits, &long[i]);
+            });
+        }
         // IEEE special values as FLOAT4 / FLOAT8 wire bytes (and, like every input, for every other decoder below)
         let mut floats: Vec<Vec<u8>> = vec![];
         for f in [0.0f64, -0.0, 0.5, 1.0, 1.5, -1.0, 255.0, 256.0, 4503599627370497.0, 9007199254740991.0, f64::MAX, f64::MIN_POSITIVE, 5e-324, f64::INFINITY, f64::NEG_INFINITY, f64::NAN, (bits.min(1023) as f64).exp2(), (bits.min(1023) as f64).exp2() - 1.0, ((bits.min(1023)) as f64).exp2() * 0.75] {
